@@ -171,21 +171,30 @@ func c17Run(raw []byte) (*Line, error) {
 			}
 			return 2 * int(math.Ceil(math.Log(w)/math.Log(float64(base))))
 		}
+		// history calls at FIXED levels must not materialise millions of ticks on a wide domain (a 1e9-wide
+		// domain at level 1 is 8 GB of ticks: on a machine with less memory that thrashes into the per-case
+		// time limit and is reported as a hang of the library, which it is not): only list what CountTicks
+		// says is small
+		atSmall := func(level int) {
+			if n := count(level); n >= 0 && n <= 20000 {
+				at(level)
+			}
+		}
 		o2 := scale.TickOptions{Max: c.O.Max + 3}
 		if o2.Max < 1 {
 			o2.Max = 4
 		}
 		switch c.Hist {
 		case 1:
-			catch(func() { ticksO(o2); niceO(o2); count(1); at(2); ticksO(o) })
+			catch(func() { ticksO(o2); niceO(o2); count(1); atSmall(2); ticksO(o) })
 			assign(mn, mx, c.Base)
 		case 2:
 			catch(func() { setClamp(true); mapf(mn); mapf(mx * 2); ticksO(o2); count(2) })
 			setClamp(false)
 		case 3:
-			catch(func() { ticksO(o2); ticksO(scale.TickOptions{Max: 1}); at(histLevel(mn, mx, c.Base)) })
+			catch(func() { ticksO(o2); ticksO(scale.TickOptions{Max: 1}); atSmall(histLevel(mn, mx, c.Base)) })
 		case 4:
-			catch(func() { ticksO(o); count(0); at(histLevel(mn, mx, ibase)) })
+			catch(func() { ticksO(o); count(0); atSmall(histLevel(mn, mx, ibase)) })
 			assign(mn, mx, c.Base)
 		case 5:
 			catch(func() { ticksO(o) })
